@@ -2092,3 +2092,53 @@ def c11_sockets_search(meta, seed, budget):
                               "raddr": rng.choice(pool), "rport": rng.choice([0, 0, 443, rng.randrange(1, 65536)]),
                               "st": rng.choice(list(TCP_STATES)), "inode": inode, "holders": holders})
         yield {"sockets": socks, "kind": kinds[n % len(kinds)]}
+
+
+# ---------------------------------------------------------------------------
+# C19: thermal zones (sysfs mocked at glob/bcat/cat level; the real function runs)
+# ---------------------------------------------------------------------------
+
+@runner("c19:thermal")
+def c19_thermal(model, meta):
+    from psutil import _pslinux
+    import glob as _glob
+    tz = "/sys/class/thermal/thermal_zone0"
+    t = int(model.get("tz_temp", 50000))
+    c = int(model.get("tz_crit", 100000))
+    h = int(model.get("tz_high", 90000))
+    files = {tz + "/temp": str(t), tz + "/type": "x86_pkg_temp\n", tz + "/trip_point_0_type": "critical\n",
+             tz + "/trip_point_0_temp": str(c), tz + "/trip_point_1_type": "high\n", tz + "/trip_point_1_temp": str(h)}
+
+    def fake_glob(pat):
+        if pat == "/sys/class/thermal/thermal_zone*":
+            return [tz]
+        if pat == tz + "/trip_point*":
+            return [k for k in files if "trip_point" in k]
+        return []
+
+    def fake_cat(path, fallback=_pslinux._common._DEFAULT, **kw):
+        if path in files:
+            return files[path]
+        if fallback is not _pslinux._common._DEFAULT:
+            return fallback
+        raise FileNotFoundError(path)
+
+    def fake_bcat(path, fallback=_pslinux._common._DEFAULT):
+        r = fake_cat(path, fallback)
+        return r.encode() if isinstance(r, str) else r
+
+    with mock.patch.object(_glob, "glob", fake_glob), mock.patch.object(_pslinux, "cat", fake_cat), \
+            mock.patch.object(_pslinux, "bcat", fake_bcat):
+        try:
+            res, exc = _pslinux.sensors_temperatures(), None
+        except Exception as e:  # noqa: BLE001
+            res, exc = None, e
+    want = {"x86_pkg_temp": [("", t / 1000.0, h / 1000.0, c / 1000.0)]}
+    bad = exc is not None or {k: [tuple(x) for x in v] for k, v in res.items()} != want
+    return {"env": {}, "result": res, "exc": exc, "verdict": bad, "expected": want}
+
+
+@search("c19:thermal")
+def c19_thermal_search(meta, seed, budget):
+    yield {"tz_temp": 50000, "tz_crit": 100000, "tz_high": 90000}
+    yield {"tz_temp": 1, "tz_crit": 2000, "tz_high": 1000}
